@@ -54,4 +54,39 @@ def printPlainE (cfg : Cfg) (po : PrintOpts) (s : List Char) (w : Nat) : Except 
   textConsoleE cfg joined { justify := some Justify.default, overflow := po.overflow, noWrap := po.noWrap } w >>= fun segs =>
   .ok (if po.crop then splitAndCropLines cfg.cw segs w none false else [segs])
 
+/-! ## `Text.__rich_measure__` with the `max()` of an empty sequence as an error (text.py:526-532)
+
+`Model/Layout.lean: textRichMeasure` folds `max` from 0, so the `ValueError: max() iterable argument is empty` that
+Python raises is invisible there.  Here the two `max()` calls can fail, and the blank-text guard (`if not text.strip():`)
+and `str.split()` take their white-space classes as two parameters: the code is safe exactly because both use the SAME
+class (every character `split()` splits on is one `strip()` strips). -/
+
+/-- Python's `max(iterable)` -/
+def pyMax : List Nat → Except PyErr Nat
+  | [] => .error .valueError
+  | x :: xs => .ok (xs.foldl max x)
+
+/-- `str.split()` over the white-space class `p`: the maximal non-empty runs of other characters -/
+def splitWords (p : Char → Bool) : List Char → List Char → List (List Char)
+  | [], cur => if cur.isEmpty then [] else [cur.reverse]
+  | c :: r, cur =>
+    if p c then (if cur.isEmpty then splitWords p r [] else cur.reverse :: splitWords p r [])
+    else splitWords p r (c :: cur)
+
+/-- `str.splitlines()` (no line for the empty remainder after a final line break; `""` has no line at all) -/
+def splitLinesPy : List Char → List Char → List (List Char)
+  | [], cur => if cur.isEmpty then [] else [cur.reverse]
+  | c :: r, cur => if isLineBreak c then cur.reverse :: splitLinesPy r [] else splitLinesPy r (c :: cur)
+
+/-- `Text.__rich_measure__`: `guard` = what `text.strip()` strips, `split` = what `text.split()` splits on. -/
+def textRichMeasureE (guard split : Char → Bool) (cw : Char → Nat) (plain : List Char) : Except PyErr Measurement :=
+  if plain.all guard then .ok ⟨cellLen cw plain, cellLen cw plain⟩
+  else
+    pyMax ((splitLinesPy plain []).map (cellLen cw)) >>= fun maxW =>
+    pyMax ((splitWords split plain []).map (cellLen cw)) >>= fun minW =>
+    .ok ⟨(minW : Int), (maxW : Int)⟩
+
+/-- `" \t\n"`: the blanks a narrower guard would strip -/
+def asciiBlank (c : Char) : Bool := c == ' ' || c == '\t' || c == '\n'
+
 end RichModel.Totality
